@@ -1,6 +1,7 @@
 package main
 
 import (
+	"bytes"
 	"encoding/json"
 	"flag"
 	"fmt"
@@ -77,6 +78,41 @@ func (m *minimiser) run() {
 				if v := m.test(cand, rf.Sched, rf.Fault); v != nil {
 					rf.Plan = cand
 					rf.Violation = v
+				} else {
+					start += chunk
+				}
+				if time.Now().After(m.deadline) {
+					return
+				}
+			}
+		}
+	}
+	// 2b. protocol streams: remove line-delimited segments of each connection's byte stream
+	for i := range rf.Plan.Ops {
+		if len(rf.Plan.Ops[i].Raw) == 0 {
+			continue
+		}
+		segs := bytes.SplitAfter(rf.Plan.Ops[i].Raw, []byte("\n"))
+		for chunk := len(segs) / 2; chunk >= 1; chunk /= 2 {
+			for start := 0; start < len(segs); {
+				end := start + chunk
+				if end > len(segs) {
+					end = len(segs)
+				}
+				var nb []byte
+				for j, sg := range segs {
+					if j < start || j >= end {
+						nb = append(nb, sg...)
+					}
+				}
+				cand := clonePlan(rf.Plan)
+				cand.Ops[i].Raw = nb
+				cand.Ops[i].At = len(nb)
+				cand.Ops[i].Frag = []int{len(nb)}
+				if v := m.test(cand, rf.Sched, rf.Fault); v != nil {
+					rf.Plan = cand
+					rf.Violation = v
+					segs = append(append([][]byte{}, segs[:start]...), segs[end:]...)
 				} else {
 					start += chunk
 				}
